@@ -175,14 +175,15 @@ async fn run_history(line: usize, hist: &Value, dir: &str) -> Value {
     let mut out_steps = vec![];
     let mut out_offered = vec![];
     let mut out_held = vec![];
+    let mut out_flicker: Vec<u64> = vec![];
     let mut out_ms = vec![];
     let mut out_conv = vec![];
     let mut stuck = String::new();
     let adapter = match adapter {
-        Ok(a) => a,
+        Ok(a) => Arc::new(a),
         Err(e) => {
             return json!({"line": line, "steps": [], "offered": [], "held": [], "converged_ms": [], "converged": [], "panic": PANICKED.get(),
-                          "stuck": format!("adapter construction failed: {e}"), "gaveUp": false, "ns": nsname, "reqs": mock.requests()});
+                          "stuck": format!("adapter construction failed: {e}"), "gaveUp": false, "flicker": [], "ns": nsname, "reqs": mock.requests()});
         }
     };
     for (i, st) in steps.iter().enumerate() {
@@ -196,6 +197,26 @@ async fn run_history(line: usize, hist: &Value, dir: &str) -> Value {
             tokio::time::sleep(Duration::from_millis(50)).await;
             held = abstract_targets(&adapter.discover().await.unwrap_or_default());
         }
+        // "churn": a second thread reads discover() as fast as it can while the updates are applied
+        let sampler = if let Step::Churn(name, _) = &step {
+            let (a, name, stop) = (adapter.clone(), name.clone(), Arc::new(std::sync::atomic::AtomicBool::new(false)));
+            let stop2 = stop.clone();
+            let h = std::thread::spawn(move || {
+                let rt = tokio::runtime::Builder::new_current_thread().build().expect("sampler runtime");
+                let (mut samples, mut missing) = (0u64, 0u64);
+                while !stop2.load(Ordering::Relaxed) {
+                    let ts = rt.block_on(a.discover()).unwrap_or_default();
+                    samples += 1;
+                    if !ts.iter().any(|t| t.identifier == name) {
+                        missing += 1;
+                    }
+                }
+                (samples, missing)
+            });
+            Some((h, stop))
+        } else {
+            None
+        };
         if let Err(why) = mock.apply(&step, STEP_WAIT).await {
             stuck = format!("step {}: {}", i + 1, why);
         }
@@ -230,6 +251,18 @@ async fn run_history(line: usize, hist: &Value, dir: &str) -> Value {
             got = abstract_targets(&adapter.discover().await.unwrap_or_default());
             ok = got == want;
         }
+        let mut flick = 0u64;
+        if let Some((h, stop)) = sampler {
+            stop.store(true, Ordering::Relaxed);
+            // (not a blocking join: the sampler may be queued behind a writer that runs on THIS thread's runtime)
+            while !h.is_finished() {
+                tokio::time::sleep(Duration::from_millis(2)).await;
+            }
+            if let Ok((_samples, missing)) = h.join() {
+                flick = missing;
+            }
+        }
+        out_flicker.push(flick);
         out_steps.push(st.clone());
         out_offered.push(offered_json(&got));
         out_held.push(offered_json(&held));
@@ -243,7 +276,7 @@ async fn run_history(line: usize, hist: &Value, dir: &str) -> Value {
     // the client never asked for the LIST (again) although one was due: it has stopped following the API server
     let gave_up = stuck.contains("waiting for a LIST request");
     json!({"line": line, "steps": out_steps, "offered": out_offered, "held": out_held, "converged_ms": out_ms, "converged": out_conv,
-           "panic": PANICKED.get(), "stuck": stuck, "gaveUp": gave_up, "ns": nsname, "reqs": mock.requests()})
+           "panic": PANICKED.get(), "stuck": stuck, "gaveUp": gave_up, "flicker": out_flicker, "ns": nsname, "reqs": mock.requests()})
 }
 
 fn main() {
@@ -295,7 +328,7 @@ fn main() {
                 let v = match r {
                     Ok(v) => v,
                     Err(_) => json!({"line": line, "steps": [], "offered": [], "held": [], "converged_ms": [], "converged": [], "panic": true,
-                                     "stuck": "panic on the history thread", "gaveUp": false, "ns": "", "reqs": []}),
+                                     "stuck": "panic on the history thread", "gaveUp": false, "flicker": [], "ns": "", "reqs": []}),
                 };
                 results.lock().unwrap()[k] = Some(v);
             }
